@@ -49,6 +49,7 @@
 #define F_BYVAL 4
 #define F_DECOY 8
 #define F_CTLCLI 16
+#define F_CTLCLI2 64	/* with F_CTLCLI: a second control client on the same socket (both attached when it is closed) */
 #define F_NOTRAFFIC 32
 
 struct cfg {
@@ -641,7 +642,7 @@ static int transfer(int hfrom, int hto, int tag)
 }
 
 /* ---- harness-side control client ------------------------------------------------------ */
-static int ctl_cli = -1;
+static int ctl_cli = -1, ctl_cli2 = -1;
 
 static int ctl_attach(const char *skip_names)
 {
@@ -699,6 +700,10 @@ static void final_checks(const char *ev_name)
     if (ctl_cli >= 0) {
 	close(ctl_cli);
 	ctl_cli = -1;
+    }
+    if (ctl_cli2 >= 0) {
+	close(ctl_cli2);
+	ctl_cli2 = -1;
     }
     ls_close_decoys();
     drain();
@@ -912,6 +917,8 @@ static void scen_pair(const struct cfg *c)
 	    newest_ctl(known, path, sizeof(path));
 	    if (path[0])
 		ctl_cli = ctl_connect_path(path);
+	    if (path[0] && (c->flags & F_CTLCLI2) && !c->forkpt)
+		ctl_cli2 = ctl_connect_path(path);
 	}
 	struct xcm_socket *A = NULL;
 	if (S != NULL && (C != NULL || !blocking)) {
@@ -941,6 +948,19 @@ static void scen_pair(const struct cfg *c)
 	l.call = "ctl_session";
 	l.v1 = ctl_reply(ctl_cli);
 	emit(&l);
+	if (ctl_cli2 >= 0) {
+	    /* the library accepts one control client per round: a few more rounds, then the second session is used too */
+	    nudge(2);
+	    nudge(2);
+	    ctl_request(ctl_cli2);
+	    nudge(2);
+	    nudge(2);
+	    l = L0;
+	    l.ev = "probe";
+	    l.call = "ctl_session";
+	    l.v1 = ctl_reply(ctl_cli2);
+	    emit(&l);
+	}
     }
     if (c->forkpt == 3)
 	do_fork(c, est0 ? 2 : 0, est0 ? 3 : 0);
